@@ -86,21 +86,29 @@ Out(ev) == CASE ev.e = "RpSign"    -> OutSign(ev.in)
 \*   the proof verifies; the reported range equals what the header says and what the parameters promised, lies
 \*   inside [0, 2^64) and contains the value; the proof fits the caller's buffer and the advertised maximum;
 \*   rewinding with the creator's nonce returns value, blinding factor and zero-padded message; another nonce fails
+\* (a) what a verifier sees -- needs only the proof bytes (vr = RpVerifyFull of them)
+VerifiesWith(i, o, vr) ==
+  LET value == U64From8(i.value)  h == RpInfo(o.proof) IN
+  /\ vr.ok
+  /\ U64To8(vr.min) = o.vmin /\ U64To8(vr.max) = o.vmax
+  /\ IsU64(vr.max) /\ Leq(vr.min, value) /\ Leq(value, vr.max)
+  /\ h.ok /\ h.min = vr.min /\ h.max = vr.max /\ h.exp = o.iexp /\ h.mant = o.imant
+  /\ Len(o.proof) <= IntOpt(i, "plen", 5134) /\ Len(o.proof) <= RpMaxSize(value, i.min_bits)
+\* (b) what the holder of the nonce recovers -- tied to the transcribed random stream
+RewindsWith(i, o, vr, C, H) ==
+  LET msg == RpOpt(i, "msg")  mlen == IntOpt(i, "mlen", 4096)
+      rw == RpRewindFrom(vr, C, H, o.proof, i.nonce, mlen)
+  IN  /\ rw.ok /\ rw.value = U64From8(i.value) /\ rw.blind = FromBytesBE(i.blind) /\ rw.msg = o.rmsg
+      /\ \A k \in 1..Len(rw.msg) : rw.msg[k] = (IF k <= Len(msg) THEN msg[k] ELSE 0)
+      /\ ("nonce2" \in DOMAIN i /\ i.nonce2 # i.nonce) => ~RpRewindFrom(vr, C, H, o.proof, i.nonce2, mlen).ok
+SignVerifies(i, o) ==
+  (o.ret = 1 /\ o.vret = 1) =>
+    LET C == RpParseCommit(i.commit)[2]  H == RpParseGen(i.gen)[2] IN VerifiesWith(i, o, RpVerifyFull(C, H, RpOpt(i, "extra"), o.proof))
 SignSound(i, o) ==
   (o.ret = 1 /\ o.vret = 1) =>
     LET C == RpParseCommit(i.commit)[2]  H == RpParseGen(i.gen)[2]
-        value == U64From8(i.value)  msg == RpOpt(i, "msg")  extra == RpOpt(i, "extra")  mlen == IntOpt(i, "mlen", 4096)
-        vr == RpVerifyFull(C, H, extra, o.proof)
-        h  == RpInfo(o.proof)
-        rw == RpRewindFrom(vr, C, H, o.proof, i.nonce, mlen)
-    IN  /\ vr.ok
-        /\ U64To8(vr.min) = o.vmin /\ U64To8(vr.max) = o.vmax
-        /\ IsU64(vr.max) /\ Leq(vr.min, value) /\ Leq(value, vr.max)
-        /\ h.ok /\ h.min = vr.min /\ h.max = vr.max /\ h.exp = o.iexp /\ h.mant = o.imant
-        /\ Len(o.proof) <= IntOpt(i, "plen", 5134) /\ Len(o.proof) <= RpMaxSize(value, i.min_bits)
-        /\ rw.ok /\ rw.value = value /\ rw.blind = FromBytesBE(i.blind) /\ rw.msg = o.rmsg
-        /\ \A k \in 1..Len(rw.msg) : rw.msg[k] = (IF k <= Len(msg) THEN msg[k] ELSE 0)
-        /\ ("nonce2" \in DOMAIN i /\ i.nonce2 # i.nonce) => ~RpRewindFrom(vr, C, H, o.proof, i.nonce2, mlen).ok
+        vr == RpVerifyFull(C, H, RpOpt(i, "extra"), o.proof)
+    IN  VerifiesWith(i, o, vr) /\ RewindsWith(i, o, vr, C, H)
 \* refusal of out-of-range blinding factors
 SignRefuses(i, o) == ~Lt(FromBytesBE(i.blind), N) => o.ret = 0
 
@@ -303,7 +311,20 @@ PEmit == (phase = "p2" /\ PInDomain /\ PSampled) =>
 TraceEvents == LoadTrace
 TInit == phase = "pick" /\ cur = 0 /\ rec = TRUE
 TPick == phase = "pick" /\ \E i \in 1..Len(TraceEvents) : cur' = i /\ phase' = "eval" /\ rec' = rec
-TEval == phase = "eval" /\ rec' = SubRec(Out(TraceEvents[cur]), TraceEvents[cur].out) /\ phase' = "done" /\ cur' = cur
+\* SOFT output: the property promises determinism, verification, range, rewind and size of a created proof -- not THESE bytes.
+\* The specification transcribes the prover to be able to predict them (and the generated records carry the prediction), but an
+\* implementation whose proof differs is judged by the property's post-condition on ITS bytes: the library's proof verifies
+\* under the specification's Verify with the specified range = Info, bounds the value, and is no longer than its buffer and MaxSize
+\* (SignVerifies).  Everything else stays hard: ret and refusals, "second creation identical" (same), "nothing written behind the
+\* buffer" (guard), maxsz_ok, ranges, Info, and what the IMPLEMENTATION's rewind returns for its own proof (value, blinding factor,
+\* zero-padded message with the creator's nonce; failure with another nonce) -- these are specified from the inputs, not from the bytes.
+Soft(ev) == IF ev.e = "RpSign" THEN { "proof" } ELSE { }
+Post(ev) == ev.e = "RpSign" => SignVerifies(ev.in, ev.out)
+Judge(ev) == LET exp == Out(ev) IN
+  /\ \A k \in (DOMAIN exp) \ Soft(ev) : k \in DOMAIN ev.out /\ ev.out[k] = exp[k]
+  /\ (ev.e = "RpSign" /\ "proof" \in DOMAIN exp) => "proof" \in DOMAIN ev.out
+  /\ Post(ev)
+TEval == phase = "eval" /\ rec' = Judge(TraceEvents[cur]) /\ phase' = "done" /\ cur' = cur
 TNext == TPick \/ TEval
 TraceOK == rec = TRUE
 =============================================================================
